@@ -18,47 +18,76 @@ Example C14_spec_demo :
   first_bad 0 rs rs' = None /\ ceqb (h_close h) (sp_data s) = true /\ clen (sp_data s) = 20.
 Proof. vm_compute. repeat split; reflexivity. Qed.
 
-(* THE THEOREM: inside the envelope (seeks not beyond the end of the data; everything else, positioned I/O and
-   O_APPEND handles included, is unrestricted) every handle call returns what the byte-array reference returns,
-   for every initial content, flag combination and call sequence, and the content read after Close is the
-   reference's data. *)
-Theorem C14_handle_refines_bytearray : forall existing fl ops,
-  ops_ok (spec_open existing fl) ops = true ->
+(* THE THEOREM: every handle call returns what the byte-array reference returns, for EVERY call sequence (seeks beyond the
+   end, positioned I/O, O_APPEND and O_TRUNC handles included), every initial content and every flag combination, and the
+   content read after Close is the reference's data.  No envelope is left. *)
+Theorem C14_handle_refines_bytearray_all : forall existing fl ops,
   let '(h, rs) := hrun (h_open existing fl) ops in
   let '(s, rs') := spec_run (spec_open existing fl) ops in
   results_agree rs rs' /\ ceqb (h_close h) (sp_data s) = true.
-Proof. exact C14_refines. Qed.
+Proof. exact C14_refines_all. Qed.
 
-(* the same under the wider envelope: any seek once the handle is in write mode; refused seeks anywhere *)
-Theorem C14_handle_refines_bytearray_wide : forall existing fl ops,
-  ops_ok' (wm_open existing fl) (spec_open existing fl) ops = true ->
+(* ... with SYNTACTICALLY equal results and final piece list, outside one corner of the representation: a handle opened
+   O_TRUNC for writing on a non-[] content all of whose pieces have length 0 (zero bytes either way) *)
+Theorem C14_handle_refines_bytearray_all_eq : forall existing fl ops,
+  no_empty_pieces_corner existing fl ->
   let '(h, rs) := hrun (h_open existing fl) ops in
   let '(s, rs') := spec_run (spec_open existing fl) ops in
-  results_agree rs rs' /\ ceqb (h_close h) (sp_data s) = true.
-Proof. exact C14_refines_wide. Qed.
+  rs = rs' /\ h_close h = sp_data s.
+Proof. exact C14_refines_all_eq. Qed.
 
-(* ... with syntactically equal results and final piece list when the existing content does not end in zero-length pieces *)
+(* ... in particular when the existing content does not end in zero-length pieces *)
 Theorem C14_handle_refines_bytearray_eq : forall existing fl ops,
   notrail existing ->
-  ops_ok' (wm_open existing fl) (spec_open existing fl) ops = true ->
   let '(h, rs) := hrun (h_open existing fl) ops in
   let '(s, rs') := spec_run (spec_open existing fl) ops in
   rs = rs' /\ h_close h = sp_data s.
 Proof. exact C14_refines_eq. Qed.
 
-(* the remaining envelope restriction is necessary: the known finding as a refutation witness *)
-Theorem C14_seek_beyond_end_refuted : agree_b ten fl_ro [HSeek 20 0; HSeek 0 1] = false.
-Proof. exact needs_seek_bound. Qed.
-(* ReadAt/WriteAt moving the cursor used to be a second restriction (repaired in /repo); the former witnesses now agree
-   and are inside the envelope *)
-Theorem C14_readat_agrees :
-  agree_b ten fl_ro [HReadAt 2 3; HRead 1] = true /\ ops_ok (spec_open ten fl_ro) [HReadAt 2 3; HRead 1] = true.
+(* the former statements inside an envelope (no seek beyond the end in read mode; later: no lost cursor when an O_TRUNC
+   handle on an empty file enters write mode) have lost their hypotheses: the names stay *)
+Theorem C14_handle_refines_bytearray : forall existing fl ops,
+  let '(h, rs) := hrun (h_open existing fl) ops in
+  let '(s, rs') := spec_run (spec_open existing fl) ops in
+  results_agree rs rs' /\ ceqb (h_close h) (sp_data s) = true.
+Proof. exact C14_refines. Qed.
+Theorem C14_handle_refines_bytearray_wide : forall existing fl ops,
+  let '(h, rs) := hrun (h_open existing fl) ops in
+  let '(s, rs') := spec_run (spec_open existing fl) ops in
+  results_agree rs rs' /\ ceqb (h_close h) (sp_data s) = true.
+Proof. exact C14_refines_wide. Qed.
+
+(* the decision procedure used in the examples below answers true on every input *)
+Theorem C14_agree_b_always : forall existing fl ops, agree_b existing fl ops = true.
+Proof. exact C14_agree_b_all. Qed.
+
+(* a seek beyond the end in read mode used to lose the position (a former restriction; repaired in /repo: a read handle keeps
+   its logical cursor behind the end of the stream); the former witnesses now agree *)
+Theorem C14_seek_beyond_end_agrees :
+  agree_b ten fl_ro [HSeek 20 0; HSeek 0 1] = true /\
+  agree_b ten fl_rw [HTruncate (-1); HSeek 20 0; HSeek 0 1] = true /\
+  agree_b ten fl_rwa [HSeek 20 0; HSeek 0 1] = true /\
+  agree_b ten fl_ro [HSeek 20 0; HReadAt 2 3; HSeek 0 1] = true.
+Proof. repeat split; apply seek_beyond_end_agrees. Qed.
+(* ... and entering write mode from behind the end zero-fills the hole like the reference *)
+Theorem C14_seek_beyond_end_then_write_agrees :
+  agree_b ten fl_rw [HSeek 20 0; HWrite [(7, 0, 2)]; HSeek 0 1; HStat; HReadAt 40 0] = true /\
+  h_close (fst (hrun (h_open ten fl_rw) [HSeek 20 0; HWrite [(7, 0, 2)]])) = [(5, 0, 10); (0, 0, 10); (7, 0, 2)].
+Proof. split; apply seek_beyond_end_then_write_agrees. Qed.
+(* an O_TRUNC handle on an empty file used to forget its cursor when entering write mode (the last restriction; repaired in
+   /repo); the former witness now agrees: the data lands at the cursor behind a zero-filled hole *)
+Theorem C14_trunc_on_empty_agrees :
+  agree_b [] fl_rwt [HSeek 20 0; HWrite [(7, 0, 2)]] = true /\
+  h_close (fst (hrun (h_open [] fl_rwt) [HSeek 20 0; HWrite [(7, 0, 2)]])) = [(0, 0, 20); (7, 0, 2)] /\
+  agree_b [] fl_rwt [HSeek 20 0; HWriteAt [(7, 0, 2)] 3; HSeek 0 1] = true /\
+  agree_b [] fl_rwt [HSeek 20 0; HTruncate 3; HSeek 0 1] = true.
+Proof. vm_compute. repeat split; reflexivity. Qed.
+(* ReadAt/WriteAt moving the cursor used to be a restriction (repaired in /repo); the former witnesses now agree *)
+Theorem C14_readat_agrees : agree_b ten fl_ro [HReadAt 2 3; HRead 1] = true.
 Proof. exact readat_agrees. Qed.
-Theorem C14_writeat_agrees :
-  agree_b ten fl_rw [HWriteAt [(7, 0, 2)] 0; HWrite [(8, 0, 1)]] = true /\
-  ops_ok (spec_open ten fl_rw) [HWriteAt [(7, 0, 2)] 0; HWrite [(8, 0, 1)]] = true.
+Theorem C14_writeat_agrees : agree_b ten fl_rw [HWriteAt [(7, 0, 2)] 0; HWrite [(8, 0, 1)]] = true.
 Proof. exact writeat_agrees. Qed.
-(* O_APPEND handles used to be a third restriction (repaired in /repo); the former witnesses now agree, and the theorems
+(* O_APPEND handles used to be a restriction too (repaired in /repo); the former witnesses now agree, and the theorems
    above no longer exclude O_APPEND *)
 Theorem C14_append_agrees :
   agree_b ten fl_rwa [HWrite [(7, 0, 2)]; HSeek 0 0; HWrite [(8, 0, 1)]] = true /\
@@ -66,6 +95,8 @@ Theorem C14_append_agrees :
   agree_b ten fl_rwa [HRead 3; HTruncate 5; HRead 2; HWrite [(7, 0, 2)]; HSeek 0 1] = true.
 Proof. exact append_agrees. Qed.
 
+Print Assumptions C14_handle_refines_bytearray_all.
+Print Assumptions C14_handle_refines_bytearray_all_eq.
+Print Assumptions C14_handle_refines_bytearray_eq.
 Print Assumptions C14_handle_refines_bytearray.
 Print Assumptions C14_handle_refines_bytearray_wide.
-Print Assumptions C14_handle_refines_bytearray_eq.
